@@ -403,6 +403,10 @@ fn scenario_pairs() -> Vec<(&'static str, &'static str, &'static str)> {
         ("defaults-chosen-by-instance-classes/expression", r##"<svg><var k="2"/><defaults><rect match=".a" rx="{{$k + $s}}"/></defaults><specs><rect id="t" wh="$s"/><rect id="u" wh="$s">hi</rect></specs><reuse href="#t" s="3" class="a"/><reuse href="#u" s="3" class="a" x="10"/></svg>"##, r##"<svg><defaults><rect match=".a" rx="5"/></defaults><rect wh="3" class="a t"/><rect wh="3" x="10" class="a u">hi</rect></svg>"##),
         ("instance-with-content-evaluated-once/group", r##"<svg><var cost="99"/><specs><g id="tag" data-label="$label"><rect wh="30 10" text="$label"/></g></specs><reuse href="#tag" label="\$cost"/></svg>"##, r##"<svg><var cost="99"/><g data-label="\$cost" class="tag"><rect wh="30 10" text="\$cost"/></g></svg>"##),
         ("instance-with-content-evaluated-once/shape", r##"<svg><var cost="99"/><specs><rect id="t" wh="$s" data-l="\$cost">hi</rect></specs><reuse href="#t" s="3" style="content:'\$cost'"/></svg>"##, r##"<svg><var cost="99"/><rect wh="3" data-l="\$cost" style="content:'\$cost'" class="t">hi</rect></svg>"##),
+        // fifth review round: the text content of a template is evaluated with the instance's values, once
+        ("template-text-content/shape", r##"<svg><var label="out"/><specs><rect id="t" wh="30 10">[$label] {{1+2}} \$m</rect></specs><reuse href="#t" label="hi"/></svg>"##, r##"<svg><rect wh="30 10" class="t">[hi] 3 \$m</rect></svg>"##),
+        ("template-text-content/text", r##"<svg><specs><text id="t" xy="1 2">n={{$n + 1}}</text></specs><reuse href="#t" n="4"/></svg>"##, r##"<svg><text xy="1 2" class="t">n=5</text></svg>"##),
+        ("template-text-content/with-title", r##"<svg><specs><rect id="t" wh="30 10"><title>tip</title>$label</rect></specs><reuse href="#t" label="hi"/></svg>"##, r##"<svg><rect wh="30 10" class="t"><title>tip</title>hi</rect></svg>"##),
         ("group-template-local-variables-placed", r##"<svg><specs><g id="dot" r="2" width="5"><circle r="$r" cxy="$c"/><rect wh="$width"/></g></specs><reuse href="#dot" c="0" x="10"/></svg>"##, r##"<svg><g r="2" width="5" transform="translate(10, 0)" class="dot"><circle r="2" cxy="0"/><rect wh="5"/></g></svg>"##),
         ("defaults-apply-to-instance", r##"<svg><defaults><rect rx="2" class="d"/></defaults><specs><rect id="t" wh="$s"/></specs><reuse href="#t" s="3"/></svg>"##, r##"<svg><defaults><rect rx="2" class="d"/></defaults><rect wh="3" class="t"/></svg>"##),
     ]
